@@ -249,8 +249,8 @@ theorem passthrough (H : Bytes → Bytes) (hH : ∀ x, 0 < (H x).length) (c : Co
 /-- a QUIC-like packet that no attempt decodes, behind a punch packet of a registered attempt -/
 example : (match readFrom (fun _ => [7]) ⟨[([1], exMeta)], 1, [], []⟩
     [.pkt ⟨wire (fun _ => [7]) typeHello (List.replicate 16 0) (List.replicate 32 0) [] (List.replicate 8 5),
-            ⟨true, [10, 0, 0, 1], 4000⟩, ⟨false, false, false, none, none⟩, []⟩,
-     .pkt ⟨List.replicate 40 64, ⟨true, [10, 0, 0, 1], 4000⟩, ⟨false, false, false, none, none⟩, []⟩] with
+            ⟨true, [10, 0, 0, 1], 4000⟩, ⟨false, false, false, none, none, []⟩, []⟩,
+     .pkt ⟨List.replicate 40 64, ⟨true, [10, 0, 0, 1], 4000⟩, ⟨false, false, false, none, none, []⟩, []⟩] with
     | .ok (c', r, k) => some (r, k, c'.events.length)
     | _ => none)
     = some (.pkt (List.replicate 40 64) ⟨true, [10, 0, 0, 1], 4000⟩, 2, 1) := by decide
@@ -283,7 +283,7 @@ theorem removal (H : Bytes → Bytes) (hH : ∀ x, 0 < (H x).length) (r : Regist
 
 example : classify (fun _ => [7]) (Registry.remove [([1], exMeta)] [1])
     ⟨wire (fun _ => [7]) typeHello (List.replicate 16 0) (List.replicate 32 0) [] (List.replicate 8 5),
-      ⟨true, [10, 0, 0, 1], 4000⟩, ⟨false, false, false, none, none⟩, []⟩ = .ok .pass := by decide
+      ⟨true, [10, 0, 0, 1], 4000⟩, ⟨false, false, false, none, none, []⟩, []⟩ = .ok .pass := by decide
 
 /-! ### registrations, removals and the reader as concurrently scheduled atomic steps -/
 
@@ -322,7 +322,7 @@ theorem registry_atomic (H : Bytes → Bytes) (hH : ∀ x, 0 < (H x).length) (n 
 example : (run (fun _ => [7]) (Sys.init (Conn.new 1))
     [.add [1] exMeta,
      .recv ⟨wire (fun _ => [7]) typeHello (List.replicate 16 0) (List.replicate 32 0) [] (List.replicate 8 5),
-            ⟨true, [10, 0, 0, 1], 4000⟩, ⟨false, false, false, none, none⟩, []⟩,
+            ⟨true, [10, 0, 0, 1], 4000⟩, ⟨false, false, false, none, none, []⟩, []⟩,
      .remove [1], .scan]).log.map (·.2) = [.pass] := by decide
 
 /-- removal (history level): once `remove id` has happened and `id` is not registered again, no
@@ -350,6 +350,38 @@ example : Uniq [([1], exMeta)] ∧
   intro l hl
   simp only [List.mem_cons, List.mem_nil_iff, or_false] at hl
   rcases hl with rfl | rfl | rfl | rfl <;> simp [Disciplined]
+
+/-! ### the consumer of the STUN events (DiscoverWithDemux) -/
+
+/-- stun_events_have_message: whatever packets are read, under whatever verdicts of pion/stun,
+    every event on the STUN channel carries its parsed message (Go: `ev.Message != nil`), because
+    decodeSTUNPacket emits an event only from a successfully parsed binding response.  This is the
+    fact DiscoverWithDemux relies on when it evaluates `ev.Message.TransactionID`. -/
+theorem stun_events_have_message (H : Bytes → Bytes) (hH : ∀ x, 0 < (H x).length) (c c' : Conn)
+    (ins : List Input) (r : Ret) (k : Nat) (hc : ∀ e ∈ c.stun, e.message.isSome = true)
+    (h : readFrom H c ins = .ok (c', r, k)) : ∀ e ∈ c'.stun, e.message.isSome = true :=
+  readFrom_hasMsg H hH ins c c' r k hc h
+
+/-- the same for every interleaving of add / remove / recv / scan steps, from a fresh conn -/
+theorem stun_events_have_message_sched (H : Bytes → Bytes) (hH : ∀ x, 0 < (H x).length) (n : Int)
+    (sched : List Label) : ∀ e ∈ (run H (Sys.init (Conn.new n)) sched).conn.stun, e.message.isSome = true :=
+  run_hasMsg H hH sched _ (by intro e he; cases he)
+
+/-- the consumer is total on such a channel: DiscoverWithDemux's event loop never dereferences a
+    nil Message, leaves only message-carrying events behind and does not touch the registry —
+    for every set of open transactions and every answer the reader may classify meanwhile -/
+theorem discover_total (H : Bytes → Bytes) (hH : ∀ x, 0 < (H x).length) (c : Conn) (txs : List Bytes)
+    (answer : Option PktIn) (hc : ∀ e ∈ c.stun, e.message.isSome = true) :
+    ∃ c' r, discover H c txs answer = .ok (c', r) ∧ (∀ e ∈ c'.stun, e.message.isSome = true) ∧
+      c'.reg = c.reg :=
+  Hy.Punch.discover_total H hH c txs answer hc
+
+/-- the hypothesis is what protects the consumer: an event with a nil Message (which the model's
+    decodeSTUNPacket cannot produce) is a nil-pointer panic in the loop -/
+example : discover (fun _ => [7]) ⟨[], 1, [], [⟨none, ([], 0)⟩]⟩ [[1, 2, 3]] none = .panic := by decide
+
+example : discover (fun _ => [7]) ⟨[], 2, [], [⟨some [9], ([1, 1, 1, 1], 5)⟩, ⟨some [1, 2, 3], ([10, 0, 0, 1], 4000)⟩]⟩
+    [[1, 2, 3]] none = .ok (⟨[], 2, [], []⟩, .addrs [([10, 0, 0, 1], 4000)]) := by decide
 
 /-! ### the same, for the SHA-256 the driver executes -/
 
